@@ -1935,6 +1935,7 @@ impl TransactionBuilder {
                         asset_to_add: (PolicyID, AssetName, BigNum),
                         max_value_size: u32,
                         data_cost: &DataCost,
+                        max_coin: &Coin,
                     ) -> Result<bool, JsError> {
                         let (policy, asset_name, value) = asset_to_add;
                         let mut current_assets_clone = current_assets.clone();
@@ -1951,7 +1952,9 @@ impl TransactionBuilder {
                         let mut calc = MinOutputAdaCalculator::new_empty(data_cost)?;
                         calc.set_amount(&val);
                         let min_ada = calc.calculate_ada()?;
-                        amount_clone.set_coin(&min_ada);
+                        // the leftover ADA is added to the last change output afterwards,
+                        // so the value is measured with the widest coin it can end up with
+                        amount_clone.set_coin(if &min_ada > max_coin { &min_ada } else { max_coin });
 
                         Ok(amount_clone.to_bytes().len() > max_value_size as usize)
                     }
@@ -2016,6 +2019,7 @@ impl TransactionBuilder {
                                     (policy.clone(), asset_name.clone(), value),
                                     max_value_size,
                                     data_cost,
+                                    &change_estimator.coin(),
                                 )? {
                                     // if we got here, this means we will run into a overflow error,
                                     // so we want to split into multiple outputs, for that we...
@@ -2057,7 +2061,8 @@ impl TransactionBuilder {
                             let mut calc = MinOutputAdaCalculator::new_empty(data_cost)?;
                             calc.set_amount(&val);
                             let min_ada = calc.calculate_ada()?;
-                            amount_clone.set_coin(&min_ada);
+                            let max_coin = change_estimator.coin();
+                            amount_clone.set_coin(if min_ada > max_coin { &min_ada } else { &max_coin });
 
                             if amount_clone.to_bytes().len() > max_value_size as usize {
                                 output.amount = old_amount;
